@@ -5,7 +5,48 @@ from harness import ecmc_design
 from harness.build import Scratch
 
 
+ACT_CFG = dict(ntags=3, pool=2, creates={"1": [2, 3], "2": [2], "3": [2, 3]}, trashes={"1": [1], "2": [2], "3": [2, 3]},
+               activates={"1": [2, 3], "2": [], "3": [3]}, deactivates={"1": [], "2": [3], "3": []})
+
+
+def activator_component(chk, sc):
+    """D+R: Activator.tla (pool bookkeeping of TagActivator) exhaustively + behaviours replayed into the real TagActivator
+    with scripted Tagger subclasses (returned handlers, running / not-running lists, activation flags, errors)."""
+    import json
+    import os
+    from harness import tlc
+    from harness.build import run_py
+    from harness.common import extract_json
+    res = chk.add_tlc("Activator", tlc.run("Activator", "Activator.cfg", sc.sub("act_d"), workers=8, timeout=600))
+    for inv in res.violated:
+        chk.violation("design:" + inv, "Activator.tla: %s violated" % inv, res.out[-4000:])
+    r = chk.add_tlc("ActivatorSim", tlc.run("ActivatorSim", "ActivatorSim.cfg", sc.sub("act_s"), workers=1,
+                                            simulate="num=%d" % (150 if chk.tier == "quick" else 1500), depth=26,
+                                            seed=chk.seed, timeout=900))
+    behs = list({json.dumps(b, sort_keys=True): b for b in extract_json(r.out, "BEH")}.values())
+    if not behs:
+        chk.machinery("no Activator behaviours generated")
+        return
+    path = os.path.join(sc.dir, "activator.json")
+    json.dump(dict(behaviours=behs, **ACT_CFG), open(path, "w"))
+    rr = run_py(sc, ["-m", "harness.replay_activator", path], timeout=900)
+    if rr.returncode != 0:
+        chk.machinery("replay_activator crashed: " + rr.stderr[-1200:])
+        return
+    out = json.loads(rr.stdout)
+    chk.traces += out["behaviours"]
+    chk.evaluations += out["steps"]
+    chk.notes["activator_replayed_ops"] = out["kinds"]
+    for f in out["fails"]:
+        chk.violation("replay:" + f["what"].split(" after ")[0], "real TagActivator diverges from Activator.tla at step %d: %s"
+                      % (f["step"], f["what"]), f)
+    for need in ("first", "update", "trash", "update:error"):
+        if not out["kinds"].get(need):
+            chk.machinery("vacuous Activator replay: no %s step" % need)
+
+
 def run(chk):
     with Scratch() as sc:
+        activator_component(chk, sc)
         ecmc_design.design_for(chk, sc, "C09")
         runlevel.run_for(chk, "C09", sc)
